@@ -442,7 +442,7 @@ theorem RelArgs.contL {U : Ty → Prop} {tps bs as : List Ty} (h : RelArgs U tps
     search chooses every argument by the declared variance of its position, or inside a
     use-site projection): whatever vector is chosen position-wise in this way, the
     instantiation is a declarative subtype of the query.  Bounded parameters (where the code
-    re-derives arguments by unification) are not covered: `find_types:…/param-bounded-param`
+    re-derives arguments by unification) are not covered: `find_types:…/bound-mentions-parameter`
     is a recorded violation there. -/
 theorem relatedUnbounded_partial (U : Ty → Prop) (nm nm' : String) (con : Ty) (as bs ss ss' : List Ty)
     (hcon : beq con con = true) (h : RelArgs U (conParams con) bs as) :
